@@ -98,6 +98,7 @@ pub fn gen_case(seed: u64, idx: u64, pairs: usize) -> Case {
     };
     let maxlen = if unique { 6 } else { *rng.pick(&[1usize, 2, 2, 3]) };
     let with_empty_key = rng.chance(1, 3);
+    let big_values = mode != Mode::Set && rng.chance(1, 6);
     let mut files: Vec<Vec<(String, u64)>> = vec![Vec::new(); nfiles];
     let mut seen: BTreeSet<String> = BTreeSet::new();
     let mut guard = 0;
@@ -118,9 +119,13 @@ pub fn gen_case(seed: u64, idx: u64, pairs: usize) -> Case {
         if unique && !seen.insert(k.clone()) {
             continue;
         }
-        let v = match rng.below(6) {
+        let v = match rng.below(if big_values { 3 } else { 6 }) {
             0 => 0,
             1 => *rng.pick(&[1u64, 255, 256, 65535, 65536, (1 << 40) - 1]),
+            // values no f64 can hold; the largest ones only where merging
+            // cannot overflow (max / min), sums stay below 2^63
+            2 if big_values && mode != Mode::Sum => *rng.pick(&[(1u64 << 53) + 1, (1 << 63) - 1, 1 << 63, u64::MAX - 1, u64::MAX]),
+            2 if big_values => *rng.pick(&[(1u64 << 53) + 1, (1 << 56) + 3, (1 << 56) - 1]),
             _ => rng.below(1000),
         };
         let f = rng.usize_below(nfiles);
@@ -150,7 +155,9 @@ pub fn gen_case(seed: u64, idx: u64, pairs: usize) -> Case {
         }
     }
     let fifo: Vec<bool> = if rng.chance(1, 5) { (0..nfiles).map(|_| rng.chance(1, 2)).collect() } else { vec![] };
-    let input = Input { mode, files, trailing_newline, stale_output, listed_twice, fifo };
+    let crlf: Vec<bool> = if rng.chance(1, 6) { (0..nfiles).map(|_| rng.chance(2, 3)).collect() } else { vec![] };
+    let pad_values = mode != Mode::Set && rng.chance(1, 8);
+    let input = Input { mode, files, trailing_newline, stale_output, listed_twice, fifo, crlf, pad_values };
     let total = input.rows() as u32;
     let mut runs = Vec::new();
     for _ in 0..pairs {
@@ -223,6 +230,15 @@ fn account(st: &mut WStats, idx: u64, case: &Case, run: &crate::world::CaseRun) 
     }
     if !case.input.listed_twice.is_empty() {
         bump(&mut st.counters, "input.same_file_listed_twice", 1);
+    }
+    if case.input.crlf.iter().any(|b| *b) {
+        bump(&mut st.counters, "input.crlf_line_ends", 1);
+    }
+    if case.input.pad_values {
+        bump(&mut st.counters, "input.values_with_leading_zeros", 1);
+    }
+    if case.input.files.iter().any(|f| f.iter().any(|(_, v)| *v > (1 << 53))) {
+        bump(&mut st.counters, "input.values_above_2pow53", 1);
     }
     if case.input.fifo.iter().enumerate().any(|(i, b)| *b && !case.input.listed_twice.contains(&i)) {
         bump(&mut st.counters, "input.fifo_instead_of_regular_file", 1);
@@ -466,11 +482,25 @@ fn minimise(case: &Case, oracle: &str, root: &Path) -> (Case, u64) {
                 cur = c;
             }
         }
+        if cur.input.crlf.iter().any(|b| *b) {
+            let mut c = cur.clone();
+            c.input.crlf.clear();
+            if fails(&c) {
+                cur = c;
+            }
+        }
+        if cur.input.pad_values {
+            let mut c = cur.clone();
+            c.input.pad_values = false;
+            if fails(&c) {
+                cur = c;
+            }
+        }
         // fewer files
         let mut f = 0;
         while cur.input.files.len() > 1 && f < cur.input.files.len() {
             let mut c = cur.clone();
-            if !c.input.listed_twice.is_empty() || c.input.fifo.iter().any(|b| *b) {
+            if !c.input.listed_twice.is_empty() || c.input.fifo.iter().any(|b| *b) || c.input.crlf.iter().any(|b| *b) {
                 break; // indices refer to files: keep the file list as it is
             }
             let rows = c.input.files.remove(f);
